@@ -24,6 +24,10 @@ only, with falsy values, with and without an outer variable of the same name; ob
 dict, from __getattr__, from the class or from properties.  Oracle: pushed element answers, else the enclosing namespace,
 else the `missing` text; after the end tag the outer value (or nothing) again.  The plain subset of (b) is inside the
 Lean model (InstanceDict lookup is by arbitrary key) and goes through the correspondence.
+Round 7b.  (c) ELEMENT SHAPES (`element_shapes`): elements that are or merely resemble pairs (tuples of every length, namedtuple
+rows, tuple / list / str subclasses, bytes, dicts, sized objects of length two), alone and mixed; "the element" must be one
+and the same object for sequence-item, <prefix>_item, expressions and attribute lookup.  Outside the Lean model (it has one
+tuple type), decided by the independent oracle only.
 """
 import collections
 import itertools
@@ -1060,6 +1064,218 @@ def histories(res, tier):
         res.count(k, v)
 
 
+# ---------------------------------------------------------------------------------------------------------------------
+# Third generator: ELEMENT SHAPES.
+#
+# "sequence-item and sequence-key are the element (2-tuples split into key and item)": the only elements that are taken
+# apart are two-element tuples; every other element -- also one that merely looks like a pair (a list / str / bytes / dict /
+# sized object of length two), a tuple of another length, or a record whose class derives from tuple (namedtuple rows,
+# class Pair(tuple)) of any length -- is used as ONE element.  Whatever the tag regards as "the element" must be the same
+# object everywhere: sequence-item, <prefix>_item, `_['sequence-item']` in an expression, and the object whose attributes
+# the body sees.  The elements of this generator carry an attribute `ttl` of their own AND hold, at position 1, an inner
+# object with another `ttl`, so that every mixture of the two readings shows.
+#
+# Oracle (plain Python, no library code): plain 2-tuples -> item = el[1]; every non-tuple and every tuple of another length
+# -> item = el.  For instances of tuple SUBCLASSES of length two the property text can be read both ways (is a two-column
+# namedtuple a "2-tuple"?), so both readings are computed and the output must equal one of them as a whole; and one reading
+# must hold for all renderings of the run (a library that splits such rows in one place and not in another is wrong under
+# either reading).  Identity is observed through a caller-supplied function `ident` (index of the object among the
+# caller's elements by `is`, or in<i> for the object at position 1 of element i).
+
+Row1 = collections.namedtuple('Row1', 'ttl')
+Row2 = collections.namedtuple('Row2', 'key ttl')
+Row2b = collections.namedtuple('Row2b', 'ttl other')
+Row3 = collections.namedtuple('Row3', 'key ttl n')
+
+
+class SubTuple(tuple):
+    """a tuple subclass whose instances have attributes of their own"""
+
+
+class SlotTuple(tuple):
+    """a tuple subclass with a class-level attribute only"""
+    __slots__ = ()
+    ttl = 'slot'
+
+
+class SubList(list):
+    pass
+
+
+class SubStr(str):
+    pass
+
+
+class Sized2:
+    """not a sequence type at all, but len() == 2 and subscriptable"""
+
+    def __init__(self, a, b):
+        self._ab = (a, b)
+
+    def __len__(self):
+        return 2
+
+    def __getitem__(self, i):
+        return self._ab[i]
+
+
+class Inner:
+    def __init__(self, i):
+        self.ttl = 'in%d' % i
+
+    def __str__(self):
+        return 'inner'
+
+
+def _with_ttl(o, i):
+    o.ttl = 'el%d' % i
+    return o
+
+
+# shape -> (reading, maker(i, key, inner)); reading: 'split' (plain 2-tuple), 'whole', 'either' (tuple subclass, length 2)
+SHAPES = {
+    'tuple2': ('split', lambda i, k, inner: (k, inner)),
+    'tuple2str': ('split', lambda i, k, inner: (k, 'str%d' % i)),
+    'tuple0': ('whole', lambda i, k, inner: ()),
+    'tuple1': ('whole', lambda i, k, inner: (inner,)),
+    'tuple3': ('whole', lambda i, k, inner: (k, inner, i)),
+    'namedtuple1': ('whole', lambda i, k, inner: Row1('nt%d' % i)),
+    'namedtuple2': ('either', lambda i, k, inner: Row2(k, 'nt%d' % i)),
+    'namedtuple2b': ('either', lambda i, k, inner: Row2b('nt%d' % i, inner)),
+    'namedtuple3': ('whole', lambda i, k, inner: Row3(k, 'nt%d' % i, i)),
+    'subtuple0': ('whole', lambda i, k, inner: _with_ttl(SubTuple(()), i)),
+    'subtuple1': ('whole', lambda i, k, inner: _with_ttl(SubTuple((inner,)), i)),
+    'subtuple2': ('either', lambda i, k, inner: _with_ttl(SubTuple((k, inner)), i)),
+    'subtuple3': ('whole', lambda i, k, inner: _with_ttl(SubTuple((k, inner, i)), i)),
+    'slottuple2': ('either', lambda i, k, inner: SlotTuple((k, inner))),
+    'list2': ('whole', lambda i, k, inner: [k, inner]),
+    'sublist2': ('whole', lambda i, k, inner: _with_ttl(SubList([k, inner]), i)),
+    'str2': ('whole', lambda i, k, inner: 'ab'[:1] + chr(99 + i)),
+    'substr2': ('whole', lambda i, k, inner: _with_ttl(SubStr('a' + chr(99 + i)), i)),
+    'bytes2': ('whole', lambda i, k, inner: bytes([97, 99 + i])),
+    'dict2': ('whole', lambda i, k, inner: {0: k, 1: inner}),
+    'sized2': ('whole', lambda i, k, inner: _with_ttl(Sized2(k, inner), i)),
+    'obj': ('whole', lambda i, k, inner: _with_ttl(Inner(i), i)),
+}
+SHAPE_OPTS = [{}, {'size': 5, 'start': 1}, {'reverse': True}, {'prefix': 'row'}, {'prefix': 'row', 'size': 2, 'start': 2},
+              {'noPush': True}, {'noPush': True, 'prefix': 'row', 'reverse': True}]
+
+
+def shape_src(o, outer):
+    attrs = ''
+    if o.get('reverse'):
+        attrs += ' reverse'
+    if o.get('size'):
+        attrs += ' size=%d start=%d orphan=0' % (o['size'], o['start'])
+    if o.get('prefix'):
+        attrs += ' prefix=%s' % o['prefix']
+    if o.get('noPush'):
+        attrs += ' no_push_item'
+    body = ('<dtml-var sequence-index>:<dtml-var "ident(_[\'sequence-item\'])">'
+            '|<dtml-var "ident(_.getitem(\'sequence-item\', 0))">')
+    if o.get('prefix'):
+        body += '|<dtml-var "ident(%s_item)">|<dtml-var "ident(_[\'%s_item\'])">' % (o['prefix'], o['prefix'])
+    body += '|<dtml-var ttl missing="NONE">'
+    if outer:
+        body += '|<dtml-var "_[\'ttl\']">'
+    return '<dtml-in seq%s>%s;</dtml-in>#<dtml-var ttl missing="NONE"><dtml-var sequence-item missing="GONE">' % (attrs, body)
+
+
+def shape_expected(data, shapes, o, outer, reading):
+    """the documented text when length-two instances of tuple subclasses are read as `reading`"""
+    n = len(data)
+    order = list(range(n))
+    if o.get('reverse'):
+        order.reverse()
+    lo, hi = 0, n
+    if o.get('size'):
+        lo = o['start'] - 1
+        hi = min(lo + o['size'], n)
+
+    def ident(v, i):
+        # the first of the caller's elements that IS this object (the empty tuple is one shared object)
+        return str([j for j, e in enumerate(data) if e is v][0]) if v is data[i] else 'in%d' % i
+    out = ''
+    for pos in range(lo, hi):
+        i = order[pos]
+        el = data[i]
+        how = SHAPES[shapes[i]][0]
+        if how == 'either':
+            how = reading
+        item = el[1] if how == 'split' else el
+        cells = [ident(item, i)] * (4 if o.get('prefix') else 2)
+        ttl = 'NONE' if outer is None else outer
+        if not o.get('noPush') and type(item) is not str:
+            ttl = getattr(item, 'ttl', ttl)
+        cells.append(ttl)
+        if outer:
+            cells.append(ttl)
+        out += '%d:%s;' % (pos, '|'.join(cells))
+    return out + '#' + ('NONE' if outer is None else outer) + 'GONE'
+
+
+def element_shapes(res, tier):
+    from DocumentTemplate import HTML
+    r = common.rng('C10/shapes')
+    names = sorted(SHAPES)
+    cases = []
+    # deterministic part: every shape alone (lengths 1 and 3) x every option set; then random mixtures
+    for sh in names:
+        for oi, o in enumerate(SHAPE_OPTS):
+            for n in ((1, 3) if tier != 'quick' else ((3,) if oi % 2 else (1, 3))):
+                cases.append(([sh] * n, o))
+    for _ in range(150 if tier == 'quick' else 4000):
+        n = r.choice([1, 2, 3, 4, 6])
+        pool = r.sample(names, r.choice([1, 2, 3]))
+        cases.append(([r.choice(pool) for _ in range(n)], r.choice(SHAPE_OPTS)))
+    readings = {}
+    for ci, (shapes, o) in enumerate(cases):
+        o = dict(o)
+        if o.get('size') and o.get('start', 1) > len(shapes):
+            o['start'] = 1
+        outer = 'OUT' if ci % 3 == 0 else None
+        data = [SHAPES[sh][1](i, r.choice(['k%d' % i, i * 10]), Inner(i)) for i, sh in enumerate(shapes)]
+
+        def ident(v, data=data):
+            for i, el in enumerate(data):
+                if v is el:
+                    return str(i)
+            for i, el in enumerate(data):
+                try:
+                    if len(el) > 1 and el[1] is v:
+                        return 'in%d' % i
+                except Exception:  # noqa
+                    pass
+            return '?%r' % (v,)
+        cont = r.choice(['list', 'tuple', 'iter', 'gen', 'lazy', 'onlygetitem', 'deque'])
+        src = shape_src(o, outer)
+        kw = {'ttl': outer} if outer else {}
+        try:
+            got = shared_template(src)(seq=container(cont, data), ident=ident, **kw)
+        except Exception as e:  # noqa
+            got = 'raised %s: %s' % (type(e).__name__, str(e)[:200])
+        res.evaluations += 1
+        res.count('shapes')
+        for sh in set(shapes):
+            res.count('shape=' + sh)
+        res.nt(('shapes', tuple(sorted(set(shapes))), tuple(sorted(o)), cont))
+        exps = {rd: shape_expected(data, shapes, o, outer, rd) for rd in ('whole', 'split')}
+        matched = [rd for rd in ('whole', 'split') if exps[rd] == got]
+        case = {'source': src, 'element shapes': shapes, 'elements': [repr(e)[:60] for e in data], 'container': cont,
+                'options': o, 'outer ttl': outer}
+        if not matched:
+            res.oracle_fail.append({'case': case, 'what': (
+                'sequence-item / <prefix>_item / the object whose attributes the body sees must be one and the same element: '
+                'documented text %r (tuple-subclass pairs read as one element) or %r (read as key/item pairs); the engine '
+                'gives %r' % (exps['whole'], exps['split'], got))})
+        elif len(matched) == 1:
+            readings.setdefault(matched[0], case)
+    if len(readings) > 1:
+        res.oracle_fail.append({'case': readings, 'what': (
+            'length-two instances of tuple subclasses are taken apart into key / item in one rendering and used as one '
+            'element in another: "the element" is not the same thing everywhere')})
+
+
 def sweep(res, tier):
     """Deterministic product: every container x every item kind x lengths x option sets (x, in the thorough tier, how the
     objects serve their attributes), each element offering one name of every name class in turn.  The random generator
@@ -1141,7 +1357,14 @@ def run(res, tier, have_driver):
                 '(non-ASCII, leading digit, keyword), present on some elements only, values incl. 0 and \'\', with / without an '
                 'outer variable of the same name, read by name and through _[name], probed again after the end tag; objects '
                 'serve attributes from the instance dict / __getattr__ / the class / properties.  SWEEP (deterministic): every '
-                'container x item kind x length x option set, one name class in turn')
+                'container x item kind x length x option set, one name class in turn.  ELEMENT SHAPES: elements of every shape '
+                'that is or merely resembles a pair: plain tuples of length 0 / 1 / 2 / 3, namedtuple rows of 1 / 2 / 3 columns, '
+                'instances of tuple subclasses (with instance attributes, with __slots__ and class attributes) of length 0..3, '
+                'lists / list subclasses / str / str subclasses / bytes / dicts / sized subscriptable objects of length two, '
+                'alone and mixed in one sequence x plain / batch / reverse / prefix / no_push_item x containers; sequence-item, '
+                '_[\'sequence-item\'], _.getitem, <prefix>_item (name and expression) and the object whose attribute the body '
+                'sees must be ONE object per element (identity observed by a caller function): the element, or element[1] for '
+                'plain 2-tuples; for length-two tuple-subclass instances either reading, but one reading for the whole run')
     n_cases = 800 if tier == 'quick' else 12000
     model_cases = []
     for ci in range(n_cases):
@@ -1205,6 +1428,7 @@ def run(res, tier, have_driver):
         if len(res.samples) < 3 and n >= 2:
             res.sample({'source': src[:400], 'items': items[:3], 'container': cont, 'output': got})
     sweep(res, tier)
+    element_shapes(res, tier)
     histories(res, tier)
     nested = [nested_case(r) for _ in range(60 if tier == 'quick' else 1500)]
     res.have_driver = have_driver
@@ -1229,7 +1453,8 @@ def run(res, tier, have_driver):
     res.partial.append('theorems cover the unbatched renderer (renderwob); batch windows are C11\'s model; sort / reverse / batch '
                        'combinations and iterator / generator / lazy inputs are compared with the independent oracle only '
                        '(so are the ways objects serve their attributes: the model has one kind of object); element names of '
-                       'every class and mixed sequences over lists / tuples go through the correspondence as well')
+                       'every class and mixed sequences over lists / tuples go through the correspondence as well; element '
+                       'shapes (tuple subclasses, pair look-alikes) are outside the model: independent oracle only')
     res.assumptions += ['interpreter model validated (not verified) against the real classes',
                         'documented values: index/number/letter/roman/even/odd = position in the whole (sorted, reversed) '
                         'sequence; start/end and first-x/last-x relative to the displayed window',
